@@ -181,6 +181,7 @@ func init() {
 			"workflow":  "FileSource(3 files; thorough also 4) -> command process -> recorder component, channel buffers of 1 (2); fan-in: two sources (3 + 2 files) into one in-port",
 			"schedule":  "delay-bounded: the lowest-numbered runnable goroutine runs by default; at every scheduling point (block, channel operation, go statement) the solver may choose another runnable goroutine, at most 1 (quick) / 2 (thorough) times per run; every select with several ready cases is a symbolic choice",
 			"pre-state": "the output of every later input may pre-exist (symbolic), so its task is skipped while earlier tasks still run",
+			"variants":  "a process with a streaming output followed by an ordinary consumer, 3 items, regular files pre-existing at the streaming paths of later items (VxH08stream); a joined in-port fed by two carrier IPs whose sub-streams are closed in the opposite order (VxH08join)",
 		},
 		Outside:     []string{"more than 2 deviations from the default schedule", "more than 4 items", "task durations are not modelled as times: only the order of completion matters"},
 		Assumptions: append(append([]string{}, envAssumptions...), commonAssumptions[0], commonAssumptions[3], "Go channels deliver per-sender FIFO (interpreter channel semantics)"),
@@ -263,6 +264,7 @@ func init() {
 		"schedule":   "one solver variable per step choosing the thread that moves, N x (longest thread) steps: every interleaving of the token-by-token acquisition is covered",
 		"thread ops": "extracted on this run from the real Task.Execute / IncConcurrentTasks / DecConcurrentTasks for every (kind, cores)",
 		"second method": "n real tasks as goroutines with real blocking channel/mutex semantics under delay-bounded scheduling (VxH06run)",
+		"whole workflows": "real Workflow.Run with rendezvous commands (each waits until k have started): k = 2..3 (4) tasks of one process x 1..2 cores on 2..4 slots, optionally beside a streaming pair, host CPU count symbolic in 1..64 (VxH06over: tasks that do not fit must block, tasks that fit must complete); k = 2..3 (4) tasks of one process with port buffers 1..3 (VxH07proc); Go-function tasks with a rendezvous inside (VxH07go); re-run of a workflow with a FileSplitter beside a task that needs every slot (VxH07rerun); <= 1 (2) schedule deviations",
 	}
 	as := append(append([]string{}, envAssumptions...), commonAssumptions[0], commonAssumptions[3],
 		"a buffered send blocks iff the channel is full, a receive blocks iff it is empty, sync.Mutex is mutual exclusion; a thread that is enabled eventually runs (fairness of the Go scheduler)",
